@@ -21,6 +21,52 @@ def raises_in(stmts):
     return out
 
 
+def private_callees(m, f):
+    """(call node, callee) for the calls f makes to private functions of its own module or private methods of its own class -
+    the places where part of a routine may have been moved to."""
+    from ..core import own_walk
+    for x in own_walk(f.node):
+        if not isinstance(x, ast.Call):
+            continue
+        fn = x.func
+        g = None
+        if isinstance(fn, ast.Name) and fn.id.startswith('_') and not fn.id.startswith('__'):
+            g = m.funcs.get(f'{f.mod}:{fn.id}')
+        elif isinstance(fn, ast.Attribute) and fn.attr.startswith('_') and not fn.attr.startswith('__') and isinstance(fn.value, ast.Name) \
+                and fn.value.id in ('self', 'cls') and f.cls:
+            kind, p = m.lookup(f.cls, fn.attr)
+            if kind == 'method' and len(p) == 1:
+                g = p[0]
+        if g is not None and g is not f:
+            yield x, g
+
+
+def route_walk(m, f, depth=2, _seen=None):
+    """(function, node) for the nodes of f and of the private same-module helpers it calls (depth levels): the whole routine,
+    however it has been cut into pieces."""
+    from ..core import own_walk
+    seen = _seen if _seen is not None else set()
+    if f.key in seen:
+        return
+    seen.add(f.key)
+    for x in own_walk(f.node):
+        yield f, x
+    if depth > 0:
+        for _call, g in private_callees(m, f):
+            yield from route_walk(m, g, depth - 1, seen)
+
+
+def sites_via_helpers(m, f, pred, depth=2):
+    """Nodes of f satisfying pred, plus f's calls to private helpers whose routine contains such a node: where, in f, the thing
+    pred describes happens."""
+    from ..core import own_walk
+    out = [x for x in own_walk(f.node) if pred(x)]
+    for call, g in private_callees(m, f):
+        if any(pred(y) for _g, y in route_walk(m, g, depth - 1)):
+            out.append(call)
+    return out
+
+
 def always_raises(stmts):
     """Every path through the statement list ends in a raise."""
     if not stmts:
